@@ -293,9 +293,10 @@ def rule_t34(report, prog):
     report.check(okk, 'C03-R4', key(f.qname, 'data blocks 1..ceil(len/16) only; block 0 only through the attribute writer'), f.loc(),
                  'Type 3 write addresses blocks outside 1..ceil(len/16)')
     t4w = prog.func('nfc.tag.tt4.Type4Tag.NDEF._write_ndef_data')
-    okk = bool(find(t4w.node, 'offset = 0')) and any(isinstance(l, ast.While) and norm(l.test) == 'offset < len(data)' for l in walk_no_nested(t4w.node))
-    report.check(okk, 'C03-R4', key(t4w.qname, 'UPDATE BINARY offsets run from 0 to NLEN size + len(data)'), t4w.loc(),
-                 'Type 4 write range changed')
+    from . import t4model
+    v = t4model.verdicts(prog)
+    report.check(not v['fold'] and not v['range'], 'C03-R4', key(t4w.qname, 'UPDATE BINARY offsets run from 0 to NLEN size + len(data)'), t4w.loc(),
+                 'Type 4 write range changed: %s' % '; '.join((v['fold'] + v['range'])[:2]))
 
 
 def run(report, prog, tier):
